@@ -193,8 +193,11 @@ func (r *WireReader) ReadWire(l int) (Wire, error) {
 }
 
 func (r *WireReader) ReadBuf(l int) (Buffer, error) {
-	if !r.nextSeg() && l > 0 {
-		return nil, io.ErrUnexpectedEOF
+	if !r.nextSeg() {
+		if l > 0 {
+			return nil, io.ErrUnexpectedEOF
+		}
+		return Buffer{}, nil
 	}
 	if r.pos+l <= len(r.wire[r.seg]) {
 		p := r.pos
